@@ -760,7 +760,7 @@ def rule_func_name_once(chk, prog, tier):
             it.models.update({'fputs': sink('fputs'), 'emitname': sink('<name>'), 'printf': sink('<printf>'),
                               'error': lambda i2, a, e: (_ for _ in ()).throw(Terminal('error', cmodel.fmt_of(i2, a, 1)))})
             arr = it.call('mkarraytype', [w.t('char'), ev(prog, 'QUALCONST'), 3])
-            d = Obj('decl:__func__', 'heap'); d.f.update({('kind',): ev(prog, 'DECLOBJECT'), ('type',): arr, ('qual',): 0, ('value',): cmodel.val('$.L__func__'), ('name',): None})
+            d = Obj('decl:__func__', 'heap'); d.f.update({('kind',): ev(prog, 'DECLOBJECT'), ('type',): arr, ('qual',): 0, ('value',): cmodel.val('$.L__func__'), ('name',): None, ('defined',): 0, ('tentative',): 0, ('asmname',): None, ('linkage',): ev(prog, 'LINKNONE'), ('next',): None})   # every member mkdecl() clears
             other = Obj('decl:x', 'heap'); other.f.update({('kind',): ev(prog, 'DECLOBJECT'), ('type',): w.t('int'), ('qual',): 0, ('value',): cmodel.val('$x'), ('name',): None})
             f = Obj('func', 'heap'); f.f.update({('namedecl',): Ptr(d, ()), ('name',): Ptr(it.mkstr(list(b'fn'), 'fn'), (0,))})
             def use(dd):
